@@ -118,6 +118,7 @@ package operationparser
 //@   ensures [iff] (err == nil) == (jerr == nil && derr == nil && keyOK && dhOK)
 //@   ensures [value] err == nil ==> sd != nil && deref(sd) == dec
 //@   ensures [nonnil] err == nil ==> sd != nil
+//@   ensures [key] err == nil ==> sd.UpdateKey != nil
 
 //@ func (p *Parser) ParseSignedDataForRecover(compactJWS) (sd, err)
 //@   pure
@@ -132,6 +133,7 @@ package operationparser
 //@   ensures [iff] (err == nil) == (jerr == nil && derr == nil && keyOK && hashesOK && commitOK)
 //@   ensures [value] err == nil ==> sd != nil && deref(sd) == dec
 //@   ensures [nonnil] err == nil ==> sd != nil
+//@   ensures [key] err == nil ==> sd.RecoveryKey != nil
 
 //@ func (p *Parser) ParseSignedDataForDeactivate(compactJWS) (sd, err)
 //@   pure
@@ -144,6 +146,7 @@ package operationparser
 //@   ensures [iff] (err == nil) == (jerr == nil && derr == nil && keyOK)
 //@   ensures [value] err == nil ==> sd != nil && deref(sd) == dec
 //@   ensures [nonnil] err == nil ==> sd != nil
+//@   ensures [key] err == nil ==> sd.RecoveryKey != nil
 
 // ---------------------------------------------------------------------------
 // requests
